@@ -692,16 +692,16 @@ func (f *Frame) binary(st *State, e *ast.BinaryExpr) *Term {
 		// evaluate Y on a branch
 		s2 := st.clone()
 		if e.Op == token.LAND {
-			c.assume(s2, a)
+			c.assumeBranch(s2, a)
 		} else {
-			c.assume(s2, Not(a))
+			c.assumeBranch(s2, Not(a))
 		}
 		b := f.expr(s2, e.Y)
 		s1 := st.clone()
 		if e.Op == token.LAND {
-			c.assume(s1, Not(a))
+			c.assumeBranch(s1, Not(a))
 		} else {
-			c.assume(s1, a)
+			c.assumeBranch(s1, a)
 		}
 		var res *Term
 		if e.Op == token.LAND {
